@@ -16,6 +16,13 @@ mis-modelled.
 
 A collection's payload (`chroms`, `bins`, `pixels`, `indexes` and their datasets) is abstracted to
 a content id `c : Nat` stored in every dataset; `readCollection` reads `pixels/count`.
+
+The code modelled is /repo as it is now: `is_cooler` answers False for a missing path (fix D3) and for
+a link that does not resolve, and `list_coolers` walks past such links (fix D22).  The two recorded,
+unrepaired findings are switches of `Variant`: `d4` (`mv` across files leaves the source) and `d5`
+(`list_coolers` names what an ExternalLink reaches by its name inside the target file); all
+switches off = the specification.  HDF5 behaviours that were found by probing h5py 3.16 / HDF5 2.0
+are written next to the definitions that mirror them.
 -/
 namespace Cooler.FileModel
 
